@@ -119,3 +119,62 @@ def run(ctx, prefix):
     ctx.notes["scripts"] = len(scripts)
     ctx.notes["savefile_loads_performed"] = nperm
     os.remove(ctx.path("log.ndjson"))
+
+
+def run_serialize(ctx, prefix="c08:"):
+    """subtree_serialize / subtree_deserialize on app1 (C08's second half): states reached by TLC-simulated message
+    sequences (AppGen) and by directed ones; after each script the tree is serialised into a dirty buffer of every
+    capacity around 0..20 and around the needed size, the image is compared byte for byte with EncBundle of the model's
+    elements (AppModel.SerElems, OscWire.EncBundle) and replayed into a fresh instance (AppModel.Deserialized)."""
+    thorough = ctx.tier == "thorough"
+    if ctx.replay:
+        scripts = [json.load(open(ctx.replay))["case"]["script"]]
+    else:
+        raw = ctx.path("sersim.raw")
+        ctx.tlc("AppGen", "AppGen_sim.cfg", env={"OUT": raw}, workers=4, simulate=(600 if thorough else 60), depth=13, seed=ctx.seed + 8, count=False)
+        seen, sim = set(), []
+        for line in open(raw):
+            s1 = json.loads(line)
+            if s1 not in seen:
+                seen.add(s1)
+                sim.append([o for o in json.loads(s1) if o["op"] == "set"])
+        os.remove(raw)
+        S = lambda a, t, v=0: dict(op="set", addr=a, ty=t, v=v)
+        directed = [[], [S("/fx_on", "T")], [S("/palloc", "T")], [S("/fx_on", "T"), S("/palloc", "T"), S("/sub_on", "F")],
+                    [S("/fx_on", "T"), S("/fx/type", "i", 1), S("/fx/level", "i", 50), S("/fx/voice1/vol", "i", 127)],          # level stands before type: replay re-initialises it
+                    [S("/preset", "i", 2), S("/dep", "i", 99), S("/mode", "i", 1), S("/dep2", "i", 98), S("/chain", "i", 97), S("/tg", "T"), S("/dep3", "i", 96)],
+                    [S("/pn", "i", -70000), S("/pi", "i", -10), S("/pf", "f", -10), S("/pg", "f", -4000), S("/af1", "f", -2), S("/sub/sf", "f", 16), S("/subs1/sf", "f", -16)],
+                    [S("/ps", "s", list(b"q\"%\n'")), S("/po", "S", list(b"two")), S("/pt", "T"), S("/at1", "T"), S("/pc", "c", 127)],
+                    [S("/ps", "s", []), S("/al7", "i", 100), S("/ai0", "i", 0), S("/psub/si", "i", 3), S("/palloc", "T"), S("/psub/si", "i", 50), S("/psub/sa1", "i", 9)],
+                    [S("/palloc", "T"), S("/psub/st", "T"), S("/palloc", "F"), S("/fx_on", "T"), S("/fx/gain", "i", 10), S("/fx_on", "F")]]
+        scripts = [sc + [dict(op="serialize")] for sc in directed + sim]
+        ctx.notes["serialize_scripts"] = len(scripts)
+    p = ctx.path("ser_scripts.ndjson")
+    with open(p, "w") as f:
+        for sc in scripts:
+            f.write(json.dumps(sc) + "\n")
+    ctx.driver("app_driver", "asan", ["run", p, ctx.path("ser_log.ndjson")], timeout=3000)
+    rej = ctx.validate_execs("AppTrace", "AppTrace.cfg", ctx.path("ser_log.ndjson"), timeout=3000)
+    ncap = 0
+    with open(ctx.path("ser_log.ndjson")) as f:
+        for i, line in enumerate(f, 1):
+            r = json.loads(line)
+            ev = r["ev"]
+            if r.get("sig"):
+                ctx.reject(dict(clause="crash_or_hang", op="serialize"), dict(script=scripts[i - 1]), "crash or hang while serialising app1: %s" % r.get("asan_what"))
+                continue
+            e = ev[-1]
+            ctx.evaluations += 2 + len(e.get("caps", []))
+            ncap += len(e.get("caps", []))
+            if e.get("ret", 0) > 16:
+                ctx.nontrivial.add(json.dumps(script_desc(ev, len(ev))))
+            if i in rej:
+                cl, l = rej[i]
+                for c in [c for c in cl if c.startswith(prefix) or c == "memory_error"]:
+                    bad = [(k["cap"], k["ret"]) for k in ev[l - 1].get("caps", []) if not k["guard"] or k["asan"] or k["ret"] != (e["ret"] if k["cap"] >= e["ret"] else 0)][:4]
+                    ctx.reject(dict(clause=c, op=ev[l - 1]["op"]), dict(script=scripts[i - 1][:l]),
+                               "%s after %s; serialiser returned %s (%s elements, length function %s); odd capacities (cap, ret) %s" % (c, script_desc(ev, l)[-4:-1], e.get("ret"), e.get("nelems_buf"), e.get("mlen_buf"), bad))
+            if i in (2, len(scripts)):
+                ctx.sample(dict(script=script_desc(ev, min(len(ev), 6)), serialized_bytes=e.get("ret"), elements=e.get("nelems_buf"), capacities_tried=len(e.get("caps", []))))
+    ctx.notes["serialize_capacities_tried"] = ncap
+    os.remove(ctx.path("ser_log.ndjson"))
